@@ -22,9 +22,13 @@ fn gen(t: &mut Tape, _tier: Tier) -> Scenario {
     // kind 5: a valid stream of several windows with the sink failing while the
     // window is handed over (the only moment the streaming decoder writes)
     let kind = if kind == 2 && t.below(2) == 0 { 5 } else { kind };
-    let b = gen_lzma(t, if kind == 0 || kind == 4 { 2 } else { 0 }, if kind == 5 { 20_000 } else { 2500 });
+    // over-long, variant: what follows the size-bounded stream is its own end marker
+    // (a stream may carry both; the size ends it first, the marker bytes are "more")
+    let own_marker = kind == 0 && t.below(4) == 0;
+    let several_windows = kind == 5 || t.below(4) == 0;
+    let b = gen_lzma(t, if own_marker { 1 } else if kind == 0 || kind == 4 { 2 } else { 0 }, if several_windows { 20_000 } else { 2500 });
     opts.mode = t.below(3);
-    let mut size = if b.marker { None } else { Some(b.expect.len() as u64) };
+    let mut size = if b.marker && !own_marker { None } else { Some(b.expect.len() as u64) };
     let mut lying: Option<(u64, u64)> = None; // (declared size, input offset of completion within the payload)
     if kind == 4 && b.expect.len() >= 2 {
         let n = t.range(1, b.expect.len() as u64 - 1);
@@ -46,7 +50,14 @@ fn gen(t: &mut Tape, _tier: Tier) -> Scenario {
     };
     let payload_end = input.len();
     let mut note = String::from("valid");
-    if kind == 0 {
+    if own_marker {
+        let c = b.trace.iter().filter(|r| r.kind != 4).map(|r| r.consumed as u64).last().unwrap_or(5);
+        let hl = opts.header_len() as u64;
+        sc.set_i("payload_end", hl + c);
+        sc.set_b("expect", b.expect.clone());
+        sc.set_i("own_marker", 1);
+        note = format!("over-long: size-bounded stream completing after {} input bytes, followed by its own end marker ({} more bytes)", hl + c, payload_end as u64 - hl - c);
+    } else if kind == 0 {
         let n = t.range(1, 60) as usize;
         let extra = match t.below(3) {
             0 => vec![0u8; n],
@@ -103,6 +114,14 @@ fn gen(t: &mut Tape, _tier: Tier) -> Scenario {
     opts.allow_incomplete = t.below(3) == 0;
     // history that keeps going after failure / completion
     let mut ops = Vec::new();
+    if sc.has_i("payload_end") && t.below(2) == 0 {
+        // feed exactly up to the point of completion first: what follows arrives in
+        // calls of its own, to a decoder that is complete and holds nothing back
+        ops.extend_from_slice(&[OP_WRITE_N, sc.i("payload_end")]);
+        if t.below(3) == 0 {
+            ops.extend_from_slice(&[OP_WRITE, input.len() as u64]);
+        }
+    }
     let nops = t.range(3, 40);
     for _ in 0..nops {
         match t.below(10) {
@@ -299,7 +318,7 @@ fn exec(sc: &Scenario, ctx: &mut Ctx) -> Vec<Violation> {
 pub static C16: SimpleProp = SimpleProp {
     id: "C16",
     level: "exploration",
-    rule: "one evaluation = one call history (3-50 calls of write with sizes 0..2000 / write_all-style pieces / flush / get_output, then finish) (options: all three header modes, memory limit, allow_incomplete on a third of the runs) over a valid, corrupted (bit flip, truncation, splice, extension), over-long or size-lying input, an invalid header byte, or a multi-window stream whose sink fails while the window is handed over, continuing after the first Err and after the declared size is reached; latch rules are checked over the recorded (call, result, sink length) history; distinct by scenario hash; every case non-trivial (>= 3 calls)",
+    rule: "one evaluation = one call history (3-50 calls of write with sizes 0..2000 / write_all-style pieces / flush / get_output, then finish) (options: all three header modes, memory limit, allow_incomplete on a third of the runs) over a valid, corrupted (bit flip, truncation, splice, extension), over-long (zeros, noise, the stream again, or the size-bounded stream's own end marker; half of these histories first feed exactly up to the point of completion) or size-lying input, an invalid header byte, or a multi-window stream whose sink fails while the window is handed over, continuing after the first Err and after the declared size is reached; latch rules are checked over the recorded (call, result, sink length) history; distinct by scenario hash; every case non-trivial (>= 3 calls)",
     runs_quick: 300_000,
     runs_thorough: 30_000_000,
     both_profiles: false,
